@@ -1,3 +1,4 @@
 R BHS.Merkle
 X Merkle.verify Merkle.verify_faulty Merkle.spec_verify1 Merkle.spec_answers_ok Merkle.spec_overall_ok Merkle.confirmation_eqb
 X Store.set_st
+X Merkle.verify1 Merkle.tip_height
